@@ -20,11 +20,11 @@ Proof.
   intros F A. unfold attester. destruct (a_kind m) as [|n|].
   - destruct (k =? 0).
     + destruct (x =? 2); [discriminate|]. destruct (negb (receipt_ok c)); [discriminate|].
-      destruct (existsb _ proc); [discriminate|].
+      destruct (existsb _ (fst proc)); [discriminate|].
       destruct (negb (a_fees m)); [rewrite F; discriminate|]. destruct (x =? 1); discriminate.
     + destruct (k =? 1); discriminate.
   - destruct (k =? 2); [|discriminate]. destruct (x =? n); [discriminate|]. rewrite A. discriminate.
-  - destruct (k =? 3); discriminate.
+  - destruct (k =? 3); [destruct (_ <? c)|]; discriminate.
 Qed.
 
 Definition guarded (v : variant) : Prop :=
@@ -346,7 +346,7 @@ Definition nofees_history : list aop :=
 
 Lemma nil_fees_halts_old :
   arun pinned nofees_history ainit = APanic SNilFees /\
-  match arun fixed nofees_history ainit with AOk s => (queue_ids s, as_processed s) | APanic _ => ([-1], []) end = ([], [4]).
+  match arun fixed nofees_history ainit with AOk s => (queue_ids s, fst (as_processed s)) | APanic _ => ([-1], []) end = ([], [4]).
 Proof. split; vm_compute; reflexivity. Qed.
 
 (** fewer balances than requested addresses *)
@@ -379,7 +379,7 @@ Example attest_prune_nonvacuous :
                     ++ three 1 (PGood 0 9 1) (PGood 0 9 1) (PGood 0 9 1)        (* matching transaction: attested *)
                     ++ [AEvidence 0 2 (errp 7); AEvidence 1 3 (PGood 2 1 3)]    (* one third each: stay *)
                     ++ [AEndBlock 7; AEndBlock 350]) ainit with
-  | AOk s => (queue_ids s, as_processed s, as_jail_calls s)
+  | AOk s => (queue_ids s, fst (as_processed s), as_jail_calls s)
   | APanic _ => ([], [], [])
   end = ([], [4], [1; 2; 0; 2]).
 Proof. vm_compute. reflexivity. Qed.
